@@ -18,24 +18,94 @@ pub struct HistCfg {
     pub oom_ok: bool,
 }
 
+/// Execute a fixed op list (audits as configured); returns the world's trace length
+fn exec_ops<K: BoolKind>(ctx: &mut Ctx, cfg: &HistCfg, ops: &[Op], label: String) -> (u64, u64, u64)
+where
+    for<'id> MgrOf<'id, K>: HasWorkers,
+    for<'x> INodeOfFunc<'x, K::F>: HasLevel,
+{
+    let mut w = World::<K>::new(cfg.nodes, cfg.cache, cfg.threads, cfg.nvars, label);
+    w.oom_ok = cfg.oom_ok;
+    for (i, op) in ops.iter().enumerate() {
+        w.step(ctx, op);
+        if cfg.audit_every > 0 && (i + 1) % cfg.audit_every == 0 {
+            w.audit(ctx, "periodic");
+        }
+    }
+    w.audit(ctx, "end of history");
+    let r = (w.steps, w.ooms, w.background_gcs());
+    w.teardown(ctx);
+    r
+}
+
+/// Delta-debugging style minimisation: delete chunks of the history as long as a violation with
+/// signature `sig` still appears. Deterministic single-threaded histories only.
+pub fn minimize<K: BoolKind>(ctx: &Ctx, cfg: &HistCfg, ops: &[Op], sig: &str) -> Vec<Op>
+where
+    for<'id> MgrOf<'id, K>: HasWorkers,
+    for<'x> INodeOfFunc<'x, K::F>: HasLevel,
+{
+    let fails = |ops: &[Op]| -> bool {
+        let mut sc = ctx.scratch();
+        let r = crate::ctx::catch(|| exec_ops::<K>(&mut sc, cfg, ops, "minimize".into()));
+        r.is_ok() && sc.has_sig(sig)
+    };
+    let mut cur = ops.to_vec();
+    if !fails(&cur) {
+        return cur;
+    }
+    let mut chunk = cur.len() / 2;
+    let mut budget = 400;
+    while chunk >= 1 && budget > 0 {
+        let mut i = 0;
+        let mut progressed = false;
+        while i < cur.len() && budget > 0 {
+            let end = (i + chunk).min(cur.len());
+            let mut cand = cur[..i].to_vec();
+            cand.extend_from_slice(&cur[end..]);
+            budget -= 1;
+            if !cand.is_empty() && fails(&cand) {
+                cur = cand;
+                progressed = true;
+            } else {
+                i += chunk;
+            }
+        }
+        if !progressed || chunk == 1 {
+            if chunk == 1 {
+                break;
+            }
+        }
+        chunk /= 2;
+    }
+    cur
+}
+
 /// Run one random history; audits every `audit_every` steps and at the end; teardown check.
+/// The first violated signature of a history is minimised and reported once more with the
+/// short witness (sig suffix `#min`, same known-finding matching rules apply to the base sig).
 pub fn run_history<K: BoolKind>(ctx: &mut Ctx, cfg: &HistCfg, hseed: u64, label: &str)
 where
     for<'id> MgrOf<'id, K>: HasWorkers,
     for<'x> INodeOfFunc<'x, K::F>: HasLevel,
 {
     let mut rng = crate::rng::Rng::new(hseed);
-    let mut w = World::<K>::new(cfg.nodes, cfg.cache, cfg.threads, cfg.nvars, format!("{label} kind={} hseed={hseed}", K::NAME));
+    let lbl = format!("{label} kind={} hseed={hseed}", K::NAME);
+    println!("@@{{\"t\":\"case\",\"case\":{}}}", crate::ctx::json_str(&lbl));
+    // ops are generated against the evolving world (they depend on #live handles and #vars only)
+    let mut w = World::<K>::new(cfg.nodes, cfg.cache, cfg.threads, cfg.nvars, lbl.clone());
     w.oom_ok = cfg.oom_ok;
-    println!("@@{{\"t\":\"case\",\"case\":{}}}", crate::ctx::json_str(&w.label));
+    let before: std::collections::BTreeSet<String> = ctx.sigs().into_iter().collect();
+    let mut ops = Vec::with_capacity(cfg.steps);
     for i in 0..cfg.steps {
         let op = gen_op(&mut rng, w.n, w.hs.len(), K::HAS_QUANT, &cfg.profile);
         if i == 0 {
             ctx.sample(|| format!("{}: first ops {:?} ...", w.label, op));
         }
         w.step(ctx, &op);
+        ops.push(op);
         if ctx.num_violations() > 50 {
-            return;
+            break;
         }
         if cfg.audit_every > 0 && (i + 1) % cfg.audit_every == 0 {
             w.audit(ctx, "periodic");
@@ -47,6 +117,18 @@ where
     ctx.count("background_gcs_observed", w.background_gcs());
     ctx.count("histories", 1);
     w.teardown(ctx);
+    let new_sigs: Vec<String> = ctx.sigs().into_iter().filter(|s| !before.contains(s)).collect();
+    if let Some(sig) = new_sigs.first() {
+        if cfg.threads == 1 && !(cfg.nodes >= 100 && cfg.oom_ok) {
+            let small = minimize::<K>(ctx, cfg, &ops, sig);
+            println!(
+                "@@{{\"t\":\"note\",\"sig\":{},\"minimized\":{}}}",
+                crate::ctx::json_str(sig),
+                crate::ctx::json_str(&format!("{lbl} nvars={} cache={} nodes={}: {:?}", cfg.nvars, cfg.cache, cfg.nodes, small))
+            );
+            eprintln!("[minimized] {sig}: nvars={} cache={} nodes={}: {:?}", cfg.nvars, cfg.cache, cfg.nodes, small);
+        }
+    }
 }
 
 pub fn random_histories(ctx: &mut Ctx) {
